@@ -1,7 +1,7 @@
 /-
   C17 — the model of part A meets the declarative specification: every name a generated method loads
-  is bound by the method's own script (`uses_bound`), hence — no hazards — the resolution table is the
-  list of intended objects (`table_eq_uses`); those are what the field specification calls for.
+  is bound by the method's own script (`uses_bound`), hence the resolution table is the list of
+  intended objects (`table_eq_uses`); those are what the field specification calls for.
 -/
 import AttrsModel.Proofs.C17Globals
 
@@ -11,9 +11,6 @@ theorem reprCallName_eq (n : String) : reprCallName n = reprName n := by
   simp [reprCallName, reprName, reprCall_eq_repr]
 
 /-! ### every use is bound in the script's own helper dict -/
-
-/-- the one load that is a plain builtin -/
-def IsNI (u : Entry) : Prop := u = use "eq" "NotImplemented" ⟨.builtin, "NotImplemented"⟩
 
 theorem reprUses_bound (c : Case) (u : Entry) (h : u ∈ reprUses c) : (u.name, u.obj) ∈ reprGlobs c := by
   simp only [reprUses, List.mem_append, List.mem_cons, List.mem_flatMap, List.mem_filter,
@@ -36,13 +33,12 @@ theorem reprUses_bound (c : Case) (u : Entry) (h : u ∈ reprUses c) : (u.name, 
         rcases h with h | h <;> subst h <;> right <;> exact ⟨by decide, rfl⟩
       · simp at h
 
-theorem eqUses_bound (c : Case) (u : Entry) (h : u ∈ eqUses c) : IsNI u ∨ (u.name, u.obj) ∈ eqGlobs c := by
+theorem eqUses_bound (c : Case) (u : Entry) (h : u ∈ eqUses c) : (u.name, u.obj) ∈ eqGlobs c := by
   simp only [eqUses, List.mem_cons, List.mem_map, List.mem_filter] at h
+  simp only [eqGlobs, List.mem_append, List.mem_map, List.mem_filter, mem_fixedBinds]
   rcases h with h | ⟨f, hf, h⟩
-  · left; subst h; simp [IsNI, eqNotImplemented, Generated.c17EqFixed]
-  · right; subst h
-    simp only [eqGlobs, List.mem_append, List.mem_map, List.mem_filter]
-    right; exact ⟨f, hf, rfl⟩
+  · subst h; left; exact ⟨by decide, rfl⟩
+  · subst h; right; exact ⟨f, hf, rfl⟩
 
 theorem hashUses_bound (c : Case) (u : Entry) (h : u ∈ hashUses c) : (u.name, u.obj) ∈ hashGlobs c := by
   simp only [hashUses, List.mem_append, List.mem_singleton, List.mem_map, List.mem_filter] at h
@@ -131,120 +127,45 @@ theorem initTopUses_bound (c : Case) (u : Entry) (h : u ∈ initTopUses c) :
       exact mem_initGlobs_of c _ _ (Or.inr (Or.inl ((mem_fixedBinds _ _ _).2 ⟨by decide, rfl⟩)))
     · simp at h
 
-/-- **every name a generated method loads is bound by that method's own script** — or is the plain
-    builtin `NotImplemented` -/
-theorem uses_bound (c : Case) (u : Entry) (h : u ∈ uses c) : IsNI u ∨ (u.name, u.obj) ∈ helperGlobs c := by
+/-- **every name a generated method loads is bound by that method's own script** -/
+theorem uses_bound (c : Case) (u : Entry) (h : u ∈ uses c) : (u.name, u.obj) ∈ helperGlobs c := by
   simp only [uses, List.mem_append] at h
   rcases h with ((h | h) | h) | h
   · split at h
     · rename_i hc
-      right; rw [helperGlobs_eq]; simp only [List.mem_append, hc, if_true]
+      rw [helperGlobs_eq]; simp only [List.mem_append, hc, if_true]
       left; left; left; exact reprUses_bound c u h
     · simp at h
   · split at h
     · rename_i hc
-      rcases eqUses_bound c u h with h | h
-      · exact Or.inl h
-      · right; rw [helperGlobs_eq]; simp only [List.mem_append, hc, if_true]
-        left; left; right; exact h
+      rw [helperGlobs_eq]; simp only [List.mem_append, hc, if_true]
+      left; left; right; exact eqUses_bound c u h
     · simp at h
   · split at h
     · rename_i hc
-      right; rw [helperGlobs_eq]; simp only [List.mem_append, hc, if_true]
+      rw [helperGlobs_eq]; simp only [List.mem_append, hc, if_true]
       left; right; exact hashUses_bound c u h
     · simp at h
   · simp only [initUses, List.mem_append, List.mem_filter] at h
     rcases h with ⟨h, _⟩ | h
-    · exact Or.inr (initBodyUses_bound c u h)
-    · exact Or.inr (initTopUses_bound c u h)
+    · exact initBodyUses_bound c u h
+    · exact initTopUses_bound c u h
 
 /-! ### the resolution table is the list of intended objects -/
 
-theorem moduleGlobs_kind (c : Case) (n : String) (o : Obj) (h : (n, o) ∈ moduleGlobs c) :
-    o.kind = .module := by
-  simp only [moduleGlobs] at h
-  split at h
-  · simp at h
-  · simp only [List.mem_map, Prod.mk.injEq] at h
-    obtain ⟨_, _, _, h2⟩ := h; subst h2; rfl
-  · simp only [List.mem_map, Prod.mk.injEq] at h
-    obtain ⟨_, _, _, h2⟩ := h; subst h2; rfl
-
-theorem known_nil (c : Case) (h : known c = []) :
-    crossCollision c = false ∧ paramShadows c = false ∧
-    ¬ (eqGenerated c = true ∧
-       (table c).any (fun e => e.meth == "eq" && e.name == "NotImplemented" && e.obj.kind == .module) = true) := by
-  simp only [known, knownK17a, knownK17b, knownK17c, List.append_eq_nil_iff] at h
-  obtain ⟨⟨h1, h2⟩, h3⟩ := h
-  refine ⟨?_, ?_, ?_⟩
-  · cases hx : crossCollision c <;> simp_all
-  · cases hx : paramShadows c <;> simp_all
-  · rintro ⟨ha, hb⟩
-    simp [ha, hb, Generated.c17EqFixed] at h1
-
-theorem resolve_use (c : Case) (hk : known c = []) (u : Entry) (h : u ∈ uses c) :
-    resolveIn (globalsOf c) u.name = u.obj := by
-  obtain ⟨hx, _, hni⟩ := known_nil c hk
-  rcases uses_bound c u h with hu | hu
-  · -- NotImplemented: not a helper name, and — K17a excluded — not bound by the module either
-    have hu' : u = use "eq" "NotImplemented" ⟨.builtin, "NotImplemented"⟩ := hu
-    have hname : u.name = "NotImplemented" := by rw [hu']; rfl
-    have hobj : u.obj = ⟨.builtin, "NotImplemented"⟩ := by rw [hu']; rfl
-    have hl : lookup (globalsOf c) "NotImplemented" = lookup (moduleGlobs c) "NotImplemented" :=
-      non_helper_from_module c _ _ (notImplemented_not_helper c)
-    rw [hname, hobj]
-    cases hm : lookup (moduleGlobs c) "NotImplemented" with
-    | none => simp [resolveIn, hl, hm]
-    | some o =>
-      exfalso
-      have hkind := moduleGlobs_kind c _ o (lookup_mem _ _ _ hm)
-      have heq : eqGenerated c = true := by
-        simp only [uses, List.mem_append] at h
-        rcases h with ((h | h) | h) | h
-        · split at h
-          · have := reprUses_bound c u h
-            have hb := bound_reprGlobs c _ _ this
-            rw [hname, hobj] at hb
-            rcases hb with ⟨e, _⟩ | ⟨a, ha, _⟩
-            · simp [fixedObj] at e
-            · simp [schemeOf] at ha
-          · simp at h
-        · split at h
-          · assumption
-          · simp at h
-        · split at h
-          · have := hashUses_bound c u h
-            have hb := bound_hashGlobs c _ _ this
-            rw [hname, hobj] at hb
-            rcases hb with ⟨e, _⟩ | ⟨a, ha, _⟩
-            · simp [fixedObj] at e
-            · simp [schemeOf] at ha
-          · simp at h
-        · simp only [initUses, List.mem_append, List.mem_filter] at h
-          have hb : (u.name, u.obj) ∈ helperGlobs c := by
-            rcases h with ⟨h, _⟩ | h
-            · exact initBodyUses_bound c u h
-            · exact initTopUses_bound c u h
-          have hb := bound_of_mem_helperGlobs c _ _ hb
-          rw [hname, hobj] at hb
-          rcases hb with ⟨e, _⟩ | ⟨a, ha, _⟩
-          · simp [fixedObj] at e
-          · simp [schemeOf] at ha
-      apply hni
-      refine ⟨heq, ?_⟩
-      simp only [table, List.any_map, List.any_eq_true]
-      refine ⟨u, h, ?_⟩
-      have hm' : u.meth = "eq" := by rw [hu']; rfl
-      simp [hm', hname, resolveIn, hl, hm, hkind]
-  · exact resolve_helper c hx _ _ _ hu
-
-/-- **no hazards ⇒ every load finds exactly the object its own script meant** -/
-theorem table_eq_uses (c : Case) (hk : known c = []) : table c = uses c := by
+/-- **every load finds exactly the object its own script meant** — for every class specification,
+    every naming of its fields and every module namespace -/
+theorem table_eq_uses (c : Case) : table c = uses c := by
   simp only [table]
   conv => rhs; rw [← List.map_id (uses c)]
   apply List.map_congr_left
   intro u hu
-  have := resolve_use c hk u hu
-  cases u; simp_all
+  have := resolve_helper c (moduleGlobs c) u.name u.obj (uses_bound c u hu)
+  cases u
+  simp_all [globalsOf]
+
+theorem known_nil (c : Case) (h : known c = []) : paramShadows c = false := by
+  simp only [known, knownK17c] at h
+  cases hx : paramShadows c <;> simp_all
 
 end Attrs.C17
